@@ -285,6 +285,22 @@ pub fn build(r: &mut Rng, kind: ConnKind, client: Endpoint, server: Endpoint, o:
             st.seg.ttl = t;
         }
     }
+    // IPv6 extension headers in front of TCP (hop-by-hop, destination options, routing): on one IPv6 connection in
+    // twelve every packet carries them, on one in twenty-four only the data segments do
+    if !client.is_v4() {
+        let which = r.below(24);
+        if which < 3 {
+            let ext: Vec<u8> = match r.below(4) {
+                0 => vec![0],
+                1 => vec![60],
+                2 => vec![0, 60],
+                _ => vec![43],
+            };
+            for st in steps.iter_mut().filter(|st| which < 2 || !st.seg.payload.is_empty()) {
+                st.seg.v6_ext = ext.clone();
+            }
+        }
+    }
     // every host has a NIC; frames towards the server carry (server mac, client mac) and vice versa
     let (cm, sm) = (pkt::mac(r), pkt::mac(r));
     for st in steps.iter_mut() {
